@@ -22,6 +22,7 @@ struct ThreadArg{ CacheIface* c; std::vector<OpRec> ops; };
 
 void thread_body(void* p,int){
   ThreadArg* a=(ThreadArg*)p;
+  cachesim_hb_thread_start();
   for(size_t i=0;i<a->ops.size();i++){
     OpRec& o=a->ops[i];
     sched_yield(SITE_OPBEGIN);
@@ -93,6 +94,7 @@ struct CacheEngine: Engine{
     const Json& threads=plan["threads"];
     int nthreads=(int)threads.size(); if(nthreads>3) nthreads=3;
     if(tls && nthreads>1) nthreads=1;
+    cachesim_hb_reset();
     CacheIface* c=tls?make_tls_cache(cap):make_shared_cache(cap);
     cachesim_spurious_pct=(int)plan["spurious_pct"].as_int(0);
     cachesim_coarse=(int)plan["coarse"].as_int(0);
@@ -127,6 +129,7 @@ struct CacheEngine: Engine{
     Json sched=Json::array();
     { const int* d=sched_decisions(); int n=sched_ndecisions(); for(int i=0;i<n;i++) sched.push(d[i]); }
     SchedResult sr=sched_end();
+    cachesim_hb_join_all();
     cachesim_spurious_pct=0; cachesim_coarse=0;
     out.plan_patch=Json::object(); out.plan_patch["schedule"]=sched;
 
@@ -192,6 +195,7 @@ struct CacheEngine: Engine{
       for(int t=0;t<nthreads;t++) for(size_t k=0;k<args[t].ops.size();k++)
         if(args[t].ops[k].cas>8) out.fail("liveness:cas-count","uncontended","operation needed "+std::to_string(args[t].ops[k].cas)+" compare-and-swap attempts without contention (bounded liveness: 2 are needed today, 8 allowed)");
     }
+    if(!tls && cachesim_hb_race()) out.fail("hb:payload-race","payload",cachesim_hb_race());
     if(sr.deadlock) out.fail("sched:deadlock","","all threads blocked");
     if(sr.overflow) out.fail("liveness:step-budget","","scheduler step budget exhausted (livelock)");
     delete c;
